@@ -52,6 +52,12 @@ Proof.
   rewrite pget_pset. unfold pget. destruct (d' =? 0); destruct (d =? 0); cbn [andb orb negb]; lia.
 Qed.
 
+Lemma pget_pset_same {A} d (v : A) p : pget d (pset d v p) = v.
+Proof. unfold pget, pset. destruct (d =? 0); reflexivity. Qed.
+Lemma pget_pset_cases {A} d d' (v : A) p :
+  pget d' (pset d v p) = v /\ pget d' p = pget d p \/ pget d' (pset d v p) = pget d' p.
+Proof. unfold pget, pset. destruct (d =? 0); destruct (d' =? 0); cbn [fst snd]; auto. Qed.
+
 (** ** The invariant *)
 Definition in_range (s : st) (id : Z) : Prop :=
   if sid_init id =? side s then sid_index id < pget (sid_dir id) (nxt s)
@@ -68,7 +74,9 @@ Record Inv11 (s : st) : Prop := mkInv11 {
   j_fin : forall id, In id (g_fin s) -> alookup id (sendm s) = None /\ in_range s id;
   j_nodup : NoDup (g_fin s);
   j_reset : forall id, In id (g_reset s) ->
-              ~ In id (g_fin s) /\ in_range s id /\ reset_or_gone s id }.
+              ~ In id (g_fin s) /\ in_range s id /\ reset_or_gone s id;
+  (* the window of permitted remote streams is kept full *)
+  j_alloc : forall d, pget d (alloc s) = pget d (max_conc s) }.
 
 (** ** Extension: the only change is that remotely initiated bidirectional streams beyond the old
     limit came into existence *)
@@ -77,14 +85,17 @@ Definition E (s s' : st) : Prop :=
   (forall d, pget d (max_remote s) <= pget d (max_remote s')) /\
   (forall id, alookup id (sendm s') = alookup id (sendm s) \/
      (alookup id (sendm s) = None /\ sid_init id <> side s /\ sid_dir id = 0 /\
-      pget 0 (max_remote s) <= sid_index id < pget 0 (max_remote s'))).
+      pget 0 (max_remote s) <= sid_index id < pget 0 (max_remote s'))) /\
+  ((forall d, pget d (alloc s) = pget d (max_conc s)) ->
+   (forall d, pget d (alloc s') = pget d (max_conc s'))).
 
 Lemma E_refl s : E s s.
 Proof. unfold E. repeat split; auto; lia. Qed.
 Lemma E_trans a b c : E a b -> E b c -> E a c.
 Proof.
-  intros (A1 & A2 & A3 & A4 & A5 & A6) (B1 & B2 & B3 & B4 & B5 & B6).
-  unfold E. repeat split; try congruence.
+  intros (A1 & A2 & A3 & A4 & A5 & A6 & A7) (B1 & B2 & B3 & B4 & B5 & B6 & B7).
+  unfold E. split; [congruence|]. split; [congruence|]. split; [congruence|]. split; [congruence|].
+  split; [|split; [|auto]].
   - intro d. specialize (A5 d). specialize (B5 d). lia.
   - intro id. pose proof (A5 0) as A50. pose proof (B5 0) as B50.
     destruct (B6 id) as [H|(H1 & H2 & H3 & H4)].
@@ -98,22 +109,24 @@ Qed.
 (** Equality of the six relevant fields. *)
 Definition Q (s s' : st) : Prop :=
   side s' = side s /\ nxt s' = nxt s /\ g_fin s' = g_fin s /\ g_reset s' = g_reset s /\
-  max_remote s' = max_remote s /\ sendm s' = sendm s.
+  max_remote s' = max_remote s /\ sendm s' = sendm s /\
+  alloc s' = alloc s /\ max_conc s' = max_conc s.
 Lemma Q_E s s' : Q s s' -> E s s'.
 Proof.
-  intros (A1 & A2 & A3 & A4 & A5 & A6). unfold E. rewrite A5, A6. repeat split; auto; lia.
+  intros (A1 & A2 & A3 & A4 & A5 & A6 & A7 & A8). unfold E. rewrite A5, A6, A7, A8.
+  repeat split; auto; lia.
 Qed.
 Ltac qsame := apply Q_E; unfold Q; prj; repeat split; reflexivity.
 
 Lemma in_range_E s s' id : E s s' -> in_range s id -> in_range s' id.
 Proof.
-  intros (A1 & A2 & A3 & A4 & A5 & A6). unfold in_range. rewrite A1, A2.
+  intros (A1 & A2 & A3 & A4 & A5 & A6 & A7). unfold in_range. rewrite A1, A2.
   destruct (sid_init id =? side s); [auto|]. specialize (A5 (sid_dir id)). lia.
 Qed.
 
 Lemma Inv11_E s s' : Inv11 s -> E s s' -> Inv11 s'.
 Proof.
-  intros [J1 J2 J3 J4 J5] He. pose proof He as (A1 & A2 & A3 & A4 & A5 & A6).
+  intros [J1 J2 J3 J4 J5 J6] He. pose proof He as (A1 & A2 & A3 & A4 & A5 & A6 & A7).
   constructor.
   - rewrite A1. exact J1.
   - intros id t L. destruct (A6 id) as [H|(H1 & H2 & H3 & H4)].
@@ -134,12 +147,14 @@ Proof.
     destruct (A6 id) as [H|(H1 & H2 & H3 & H4)]; [rewrite H; exact R3|].
     exfalso. unfold in_range in R2. destruct (sid_init id =? side s) eqn:Ei; [lia|].
     rewrite H3 in R2. lia.
+  - apply A7. exact J6.
 Qed.
 
 (** ** Insertion of remotely initiated streams *)
 Lemma insert_remote_look id s :
   let s' := insert_stream true id s in
   side s' = side s /\ nxt s' = nxt s /\ g_fin s' = g_fin s /\ g_reset s' = g_reset s /\
+  alloc s' = alloc s /\ max_conc s' = max_conc s /\
   max_remote s' = max_remote s /\
   (forall k, alookup k (sendm s') = alookup k (sendm s) \/
      (k = id /\ alookup id (sendm s) = None /\ sid_dir id = 0)).
@@ -149,7 +164,7 @@ Proof.
   destruct (sid_dir id =? 0) eqn:D.
   - destruct (amem id (sendm s)) eqn:M.
     + set (s1 := set_panic true s).
-      assert (Q s s1) as (A1 & A2 & A3 & A4 & A5 & A6) by (subst s1; unfold Q; prj; repeat split; reflexivity).
+      assert (Q s s1) as (A1 & A2 & A3 & A4 & A5 & A6 & A7 & A8) by (subst s1; unfold Q; prj; repeat split; reflexivity).
       destruct (amem id (recvm s1)); [|destruct (0 <? free_recv s1)]; prj;
         repeat split; auto.
     + apply amem_look in M.
@@ -168,6 +183,7 @@ Lemma insert_range_look n d from s :
   (side s = 0 \/ side s = 1) -> (d = 0 \/ d = 1) ->
   let s' := insert_remote_range n d from s in
   side s' = side s /\ nxt s' = nxt s /\ g_fin s' = g_fin s /\ g_reset s' = g_reset s /\
+  alloc s' = alloc s /\ max_conc s' = max_conc s /\
   max_remote s' = max_remote s /\
   (forall k, alookup k (sendm s') = alookup k (sendm s) \/
      (alookup k (sendm s) = None /\ sid_init k <> side s /\ sid_dir k = 0 /\ d = 0 /\
@@ -176,10 +192,10 @@ Proof.
   intros Hs Hd. revert from s Hs. induction n as [|n IH]; intros from s Hs; cbn [insert_remote_range].
   - repeat split; auto.
   - set (id := mk_sid (1 - side s) d from).
-    pose proof (insert_remote_look id s) as (A1 & A2 & A3 & A4 & A5 & A6). cbv zeta in *.
+    pose proof (insert_remote_look id s) as (A1 & A2 & A3 & A4 & Aa & Ac & A5 & A6). cbv zeta in *.
     set (s1 := insert_stream true id s) in *.
     assert (Hs1 : side s1 = 0 \/ side s1 = 1) by (rewrite A1; exact Hs).
-    destruct (IH (from + 1) s1 Hs1) as (B1 & B2 & B3 & B4 & B5 & B6).
+    destruct (IH (from + 1) s1 Hs1) as (B1 & B2 & B3 & B4 & Ba & Bc & B5 & B6).
     assert (Hi : 1 - side s = 0 \/ 1 - side s = 1) by lia.
     destruct (sid_parts (1 - side s) d from Hi Hd) as (P1 & P2 & P3). fold id in P1, P2, P3.
     repeat split; try congruence.
@@ -191,20 +207,39 @@ Proof.
       * right. repeat split; auto; try lia. all: try (rewrite P1; lia).
 Qed.
 
+Lemma ensure_fields d s : (side s = 0 \/ side s = 1) -> (d = 0 \/ d = 1) ->
+  let nc := Z.max 0 (pget d (max_conc s) - pget d (alloc s)) in
+  alloc (ensure_remote_streams d s) = pset d (pget d (alloc s) + nc) (alloc s) /\
+  max_conc (ensure_remote_streams d s) = max_conc s.
+Proof.
+  intros Hs Hd nc. unfold ensure_remote_streams. fold nc.
+  pose proof (insert_range_look (Z.to_nat nc) d (pget d (max_remote s)) s Hs Hd)
+    as (A1 & A2 & A3 & A4 & Aa & Ac & A5 & A6). cbv zeta in *.
+  prj. rewrite Aa, Ac. split; reflexivity.
+Qed.
+
 Lemma ensure_E d s : (side s = 0 \/ side s = 1) -> (d = 0 \/ d = 1) -> E s (ensure_remote_streams d s).
 Proof.
-  intros Hs Hd. unfold ensure_remote_streams.
-  set (nc := Z.max 0 (pget d (max_conc s) - pget d (alloc s))).
+  intros Hs Hd.
+  destruct (ensure_fields d s Hs Hd) as [FA FC]. cbv zeta in FA.
+  unfold ensure_remote_streams in *.
+  set (nc := Z.max 0 (pget d (max_conc s) - pget d (alloc s))) in *.
   pose proof (insert_range_look (Z.to_nat nc) d (pget d (max_remote s)) s Hs Hd)
-    as (A1 & A2 & A3 & A4 & A5 & A6). cbv zeta in *.
+    as (A1 & A2 & A3 & A4 & Aa & Ac & A5 & A6). cbv zeta in *.
   set (s1 := insert_remote_range _ _ _ s) in *.
   assert (Hnc : 0 <= nc) by (subst nc; lia).
   assert (Hnat : Z.of_nat (Z.to_nat nc) = nc) by lia.
-  unfold E. prj. rewrite A5. repeat split; auto.
+  unfold E. prj. rewrite A5.
+  split; [auto|]. split; [auto|]. split; [auto|]. split; [auto|]. split; [|split].
   - intro d'. apply pget_pset_ge. lia.
   - intro k. destruct (A6 k) as [H|(H1 & H2 & H3 & H3' & H4)]; [left; exact H|].
     subst d. right. split; [exact H1|]. split; [exact H2|]. split; [exact H3|].
     rewrite pget_pset. change (0 =? 0) with true. cbn [andb orb]. lia.
+  - intros HA d'. prj. rewrite Aa, Ac.
+    assert (nc = 0) by (subst nc; rewrite (HA d); lia).
+    destruct (pget_pset_cases d d' (pget d (alloc s) + nc) (alloc s)) as [[P1 P2]|P1]; rewrite P1.
+    + rewrite <- (HA d'). rewrite P2. lia.
+    + apply HA.
 Qed.
 
 (** ** Functions of the receive side only extend *)
@@ -212,7 +247,7 @@ Lemma Q_refl s : Q s s.
 Proof. unfold Q; repeat split; reflexivity. Qed.
 Lemma Q_trans a b c : Q a b -> Q b c -> Q a c.
 Proof.
-  intros (A1 & A2 & A3 & A4 & A5 & A6) (B1 & B2 & B3 & B4 & B5 & B6).
+  intros (A1 & A2 & A3 & A4 & A5 & A6 & A7 & A8) (B1 & B2 & B3 & B4 & B5 & B6 & B7 & B8).
   unfold Q; repeat split; congruence.
 Qed.
 Ltac qs := unfold Q; prj; repeat split; reflexivity.
@@ -224,9 +259,37 @@ Proof.
   assert (H : E s s1).
   { subst s1. destruct (negb (sid_init id =? side s)); [|apply E_refl].
     match goal with |- E s (if ?c then _ else _) => destruct c end; [|apply E_refl].
-    eapply E_trans; [|apply ensure_E; [|apply sid_dir01]].
-    - apply Q_E. destruct (pget (sid_dir id) (alloc s) <=? 0); qs.
-    - destruct (pget (sid_dir id) (alloc s) <=? 0); prj; exact Hs. }
+    set (d := sid_dir id).
+    assert (Hd : d = 0 \/ d = 1) by apply sid_dir01.
+    set (s0 := set_panic_if (pget d (alloc s) <=? 0)
+                 (set_alloc (pset d (pget d (alloc s) - 1) (alloc s)) s)).
+    assert (F : side s0 = side s /\ nxt s0 = nxt s /\ g_fin s0 = g_fin s /\ g_reset s0 = g_reset s /\
+                max_remote s0 = max_remote s /\ sendm s0 = sendm s /\ max_conc s0 = max_conc s /\
+                alloc s0 = pset d (pget d (alloc s) - 1) (alloc s)).
+    { subst s0. destruct (pget d (alloc s) <=? 0); prj; repeat split; reflexivity. }
+    destruct F as (F1 & F2 & F3 & F4 & F5 & F6 & F7 & F8).
+    assert (S0 : side s0 = 0 \/ side s0 = 1) by (rewrite F1; exact Hs).
+    pose proof (ensure_E d s0 S0 Hd) as (B1 & B2 & B3 & B4 & B5 & B6 & _).
+    destruct (ensure_fields d s0 S0 Hd) as [GA GC]. cbv zeta in GA.
+    unfold E.
+    split; [congruence|]. split; [congruence|]. split; [congruence|]. split; [congruence|].
+    split; [|split].
+    - intro d'. specialize (B5 d'). rewrite F5 in B5. exact B5.
+    - intro k. specialize (B6 k). rewrite F6, F1, F5 in B6. exact B6.
+    - intros HA d'. rewrite GA, GC, F7, F8.
+      rewrite (pget_pset_same d). rewrite <- (HA d).
+      replace (Z.max 0 (pget d (alloc s) - (pget d (alloc s) - 1))) with 1 by lia.
+      destruct (pget_pset_cases d d' (pget d (alloc s) - 1 + 1)
+                  (pset d (pget d (alloc s) - 1) (alloc s))) as [[P1 P2]|P1]; rewrite P1.
+      + rewrite <- (HA d').
+        destruct (pget_pset_cases d d' (pget d (alloc s) - 1) (alloc s)) as [[Q1 Q2]|Q1].
+        * rewrite Q2. lia.
+        * (* d' not in d's class contradicts P2 *)
+          rewrite (pget_pset_same d) in P2. rewrite Q1 in P2.
+          unfold pget, pset in *. destruct (d =? 0); destruct (d' =? 0); cbn [fst snd] in *; lia.
+      + destruct (pget_pset_cases d d' (pget d (alloc s) - 1) (alloc s)) as [[Q1 Q2]|Q1].
+        * unfold pget, pset in *. destruct (d =? 0); destruct (d' =? 0); cbn [fst snd] in *; lia.
+        * rewrite Q1. apply HA. }
   eapply E_trans; [exact H|]. apply Q_E.
   destruct half; [|apply Q_refl]. destruct (send_streams s1 <=? 0); qs.
 Qed.
@@ -436,9 +499,10 @@ Lemma upd_Inv11 s s' id t sd' :
   (s_state (sview t) = 3 -> s_state sd' = 3) ->
   sendm s' = aset id (TSome sd') (sendm s) ->
   side s' = side s -> nxt s' = nxt s -> max_remote s' = max_remote s ->
-  g_fin s' = g_fin s -> g_reset s' = g_reset s -> Inv11 s'.
+  g_fin s' = g_fin s -> g_reset s' = g_reset s ->
+  alloc s' = alloc s -> max_conc s' = max_conc s -> Inv11 s'.
 Proof.
-  intros [J1 J2 J3 J4 J5] L K Hm A1 A2 A3 A4 A5.
+  intros [J1 J2 J3 J4 J5 J6] L K Hm A1 A2 A3 A4 A5 A6 A7.
   assert (R : forall k, in_range s' k <-> in_range s k) by (intro; apply in_range_same; assumption).
   constructor.
   - rewrite A1; exact J1.
@@ -457,6 +521,7 @@ Proof.
       destruct R3 as [R3|(sd & R3 & R4)]; [congruence|].
       apply K. rewrite L in R3. inversion R3; subst. exact R4.
     + rewrite (look_aset_other _ _ _ _ N). exact R3.
+  - rewrite A6, A7. exact J6.
 Qed.
 
 Lemma with_send_Inv11 s id t sd' :
@@ -512,7 +577,7 @@ Proof.
     assert (I1 : Inv11 s1).
     { apply (with_send_Inv11 s id t _ I L). reflexivity. }
     assert (L1 : alookup id (sendm s1) = Some (TSome (send_set_state sd 3))) by apply with_send_look.
-    destruct I1 as [J1 J2 J3 J4 J5].
+    destruct I1 as [J1 J2 J3 J4 J5 J6].
     constructor; prj; try assumption.
     intros k [<-|Hk]; [|apply J5; exact Hk].
     split; [intro Hf; destruct (J3 id Hf) as [C _]; congruence|].
@@ -523,7 +588,7 @@ Qed.
 (** Removing a send half. *)
 Lemma remove_Inv11 s id : Inv11 s -> Inv11 (set_sendm (aremove_all id (sendm s)) s).
 Proof.
-  intros [J1 J2 J3 J4 J5]. constructor; prj; try assumption.
+  intros [J1 J2 J3 J4 J5 J6]. constructor; prj; try assumption.
   - intros k t L. destruct (Z.eq_dec k id) as [->|N]; [rewrite look_remove_same in L; discriminate|].
     rewrite (look_remove_other _ _ _ N) in L.
     destruct (J2 k t L) as [R1 R2]. split; [exact R1|exact R2].
@@ -566,19 +631,19 @@ Proof.
     assert (Rg0 : in_range s0 id) by (subst s0; unfold in_range in *; prj; exact Rg).
     assert (Rg1 : in_range s1 id) by (eapply in_range_E; eassumption).
     assert (L1 : alookup id (sendm s1) = None).
-    { destruct E1 as (A1 & A2 & A3 & A4 & A5 & A6).
+    { destruct E1 as (A1 & A2 & A3 & A4 & A5 & A6 & A7).
       destruct (A6 id) as [H|(H1 & H2 & H3 & H4)].
       - rewrite H. subst s0. prj. apply look_remove_same.
       - exfalso. unfold in_range in Rg0. destruct (sid_init id =? side s0) eqn:Ei; [lia|].
         rewrite H3 in Rg0. lia. }
     assert (NF : ~ In id (g_fin s1)).
-    { destruct E1 as (A1 & A2 & A3 & A4 & A5 & A6). rewrite A3. subst s0. prj.
+    { destruct E1 as (A1 & A2 & A3 & A4 & A5 & A6 & A7). rewrite A3. subst s0. prj.
       intro Hf. destruct (j_fin _ I id Hf) as [C _]. congruence. }
     assert (NR : ~ In id (g_reset s1)).
-    { destruct E1 as (A1 & A2 & A3 & A4 & A5 & A6). rewrite A4. subst s0. prj.
+    { destruct E1 as (A1 & A2 & A3 & A4 & A5 & A6 & A7). rewrite A4. subst s0. prj.
       intro Hr. destruct (j_reset _ I id Hr) as (_ & _ & [C|(sd2 & C1 & C2)]); [congruence|].
       rewrite L in C1. inversion C1; subst. lia. }
-    destruct I1 as [J1 J2 J3 J4 J5].
+    destruct I1 as [J1 J2 J3 J4 J5 J6].
     constructor; prj; try assumption.
     + intros k [<-|Hk]; [split; assumption|apply J3; exact Hk].
     + constructor; assumption.
@@ -595,7 +660,7 @@ Proof.
   assert (Q1 : Q s s1) by (subst s1; destruct (is_pending sd); [apply Q_refl|unfold push_pending; qs]).
   pose proof (Inv11_Q _ _ I Q1) as I1.
   assert (L1 : alookup id (sendm s1) = Some (TSome sd)).
-  { destruct Q1 as (_ & _ & _ & _ & _ & A6). rewrite A6. exact L. }
+  { destruct Q1 as (_ & _ & _ & _ & _ & A6 & _). rewrite A6. exact L. }
   apply (with_send_Inv11 s1 id _ _ I1 L1). cbn [sview s_state]. auto.
 Qed.
 
@@ -652,7 +717,7 @@ Proof.
   rewrite Hm.
   set (s2 := set_sendm (aset id TNone (sendm s1)) s1).
   assert (I2 : Inv11 s2).
-  { destruct I as [J1 J2 J3 J4 J5]. subst s2 s1. constructor; prj.
+  { destruct I as [J1 J2 J3 J4 J5 J6]. subst s2 s1. constructor; prj.
     - exact J1.
     - intros k t L. destruct (Z.eq_dec k id) as [->|N].
       + split; [|intro C; congruence]. unfold in_range. prj. rewrite P1, Z.eqb_refl, P2, P3.
@@ -668,7 +733,8 @@ Proof.
       split; [apply Mono; exact R2|]. unfold reset_or_gone in *. prj.
       destruct (Z.eq_dec k id) as [->|N].
       + exfalso. unfold in_range in R2. rewrite P1, Z.eqb_refl, P2, P3 in R2. lia.
-      + rewrite (look_aset_other _ _ _ _ N). exact R3. }
+      + rewrite (look_aset_other _ _ _ _ N). exact R3.
+    - exact J6. }
   eapply Inv11_Q; [exact I2|].
   destruct ((sid_dir id =? 0) || false); [|qs].
   destruct (amem id (recvm s2)); [qs|]. destruct (0 <? free_recv s2); qs.
@@ -681,11 +747,11 @@ Proof.
   set (s0 := mkSt _ _ _ _ _ _ _ _ _ _ _ _ _ _ _ _ _ _ _ _ _ _ _ _ _ _ _ _ _ _ _ _ _ _ _).
   assert (S0 : side s0 = 0 \/ side s0 = 1) by (subst s0; prj; exact Hs).
   pose proof (insert_range_look (Z.to_nat mrb) 0 0 s0 S0 (or_introl eq_refl))
-    as (A1 & A2 & A3 & A4 & A5 & A6).
+    as (A1 & A2 & A3 & A4 & Aa & Ac & A5 & A6).
   cbv zeta in *. set (s1 := insert_remote_range (Z.to_nat mrb) 0 0 s0) in *.
   assert (S1 : side s1 = 0 \/ side s1 = 1) by (rewrite A1; exact S0).
   pose proof (insert_range_look (Z.to_nat mru) 1 0 s1 S1 (or_intror eq_refl))
-    as (B1 & B2 & B3 & B4 & B5 & B6).
+    as (B1 & B2 & B3 & B4 & Ba & Bc & B5 & B6).
   cbv zeta in *. set (s2 := insert_remote_range (Z.to_nat mru) 1 0 s1) in *.
   assert (MR : max_remote s2 = (mrb, mru)) by (rewrite B5, A5; subst s0; reflexivity).
   assert (F0 : g_fin s2 = []) by (rewrite B3, A3; subst s0; reflexivity).
@@ -703,6 +769,7 @@ Proof.
   - rewrite F0. intros k [].
   - rewrite F0. constructor.
   - rewrite R0. intros k [].
+  - intro d. rewrite Ba, Aa, Bc, Ac. subst s0. reflexivity.
 Qed.
 
 (** ** Every op of the component preserves the invariant *)
@@ -857,8 +924,64 @@ Theorem finished_once sd mru mrb rw srw pmb pmu i s :
   (forall id, In id (g_fin s) -> alookup id (sendm s) = None).
 Proof.
   intros Hs Hb H. unfold reach_sm in H. inversion H; subst; clear H.
-  pose proof (run_from_Inv11 i _ (init_Inv11 sd mru mrb rw srw pmb pmu Hs Hb)) as [J1 J2 J3 J4 J5].
+  pose proof (run_from_Inv11 i _ (init_Inv11 sd mru mrb rw srw pmb pmu Hs Hb)) as [J1 J2 J3 J4 J5 J6].
   split; [exact J4|]. split.
   - intros id Hr. apply (J5 id Hr).
   - intros id Hf. apply (J3 id Hf).
+Qed.
+
+(** ** Concurrency accounting *)
+Theorem alloc_full sd mru mrb rw srw pmb pmu i s :
+  (sd = 0 \/ sd = 1) -> 0 <= mrb ->
+  reach_sm [0; sd; mru; mrb; rw; srw; pmb; pmu] i = Some s ->
+  forall d, pget d (alloc s) = pget d (max_conc s).
+Proof.
+  intros Hs Hb H. unfold reach_sm in H. inversion H; subst; clear H.
+  apply (j_alloc _ (run_from_Inv11 i _ (init_Inv11 sd mru mrb rw srw pmb pmu Hs Hb))).
+Qed.
+
+Lemma ensure_max_remote d s : (side s = 0 \/ side s = 1) -> (d = 0 \/ d = 1) ->
+  max_remote (ensure_remote_streams d s) =
+    pset d (pget d (max_remote s) + Z.max 0 (pget d (max_conc s) - pget d (alloc s))) (max_remote s).
+Proof.
+  intros Hs Hd. unfold ensure_remote_streams.
+  set (nc := Z.max 0 (pget d (max_conc s) - pget d (alloc s))).
+  pose proof (insert_range_look (Z.to_nat nc) d (pget d (max_remote s)) s Hs Hd)
+    as (A1 & A2 & A3 & A4 & Aa & Ac & A5 & A6). cbv zeta in *.
+  prj. rewrite A5. reflexivity.
+Qed.
+
+(** One call of [stream_freed] in a state whose window is full: [max_remote] of the stream's
+    direction grows by exactly one iff the stream is remotely initiated and its other half is
+    already gone (unidirectional: always); otherwise nothing changes. *)
+Lemma stream_freed_exact id (half : bool) s :
+  (side s = 0 \/ side s = 1) -> (forall d, pget d (alloc s) = pget d (max_conc s)) ->
+  let fully := negb (sid_init id =? side s) &&
+               ((sid_dir id =? 1) || (if half then negb (amem id (recvm s)) else negb (amem id (sendm s)))) in
+  max_remote (stream_freed id half s) =
+    if fully then pset (sid_dir id) (pget (sid_dir id) (max_remote s) + 1) (max_remote s)
+    else max_remote s.
+Proof.
+  intros Hs HA fully. subst fully. unfold stream_freed.
+  set (s1 := if negb (sid_init id =? side s) then _ else s).
+  assert (M : max_remote s1 =
+              if negb (sid_init id =? side s) &&
+                 ((sid_dir id =? 1) || (if half then negb (amem id (recvm s)) else negb (amem id (sendm s))))
+              then pset (sid_dir id) (pget (sid_dir id) (max_remote s) + 1) (max_remote s)
+              else max_remote s).
+  { subst s1. destruct (negb (sid_init id =? side s)); cbn [andb]; [|reflexivity].
+    match goal with |- max_remote (if ?c then _ else _) = _ => destruct c end; [|reflexivity].
+    set (d := sid_dir id).
+    set (s0 := set_panic_if (pget d (alloc s) <=? 0)
+                 (set_alloc (pset d (pget d (alloc s) - 1) (alloc s)) s)).
+    assert (F : side s0 = side s /\ max_remote s0 = max_remote s /\ max_conc s0 = max_conc s /\
+                alloc s0 = pset d (pget d (alloc s) - 1) (alloc s)).
+    { subst s0. destruct (pget d (alloc s) <=? 0); prj; repeat split; reflexivity. }
+    destruct F as (F1 & F5 & F7 & F8).
+    assert (S0 : side s0 = 0 \/ side s0 = 1) by (rewrite F1; exact Hs).
+    rewrite (ensure_max_remote d s0 S0 (sid_dir01 id)).
+    rewrite F5, F7, F8, (pget_pset_same d), <- (HA d).
+    replace (Z.max 0 (pget d (alloc s) - (pget d (alloc s) - 1))) with 1 by lia. reflexivity. }
+  destruct half; [|exact M].
+  destruct (send_streams s1 <=? 0); prj; exact M.
 Qed.
